@@ -501,8 +501,8 @@ Definition split_equation (s : str) : option (str * str * str) :=
   end.
 
 Record eqn := { e_lhs : str; e_key : str; e_de : bool; e_rhs : str; e_asg : str }.
-(* CRaises: the third notation (`dx/dt = ...`) calls str.replace(..., count=1), a TypeError on the pinned interpreter
-   (Python 3.12) until repair D154;  CValueError: a differential equation with an augmented assignment;
+(* CRaises: before repair D154 the third notation (`dx/dt = ...`) called str.replace(..., count=1), a TypeError on the
+   pinned interpreter (Python 3.12);  CValueError: a differential equation with an augmented assignment;
    COut: no assignment can be found even after the `x = <expr>` completion *)
 Inductive cres := CEqn (e : eqn) | CRaises | CValueError | COut.
 
@@ -531,7 +531,8 @@ Definition classify_gen (leib : bool) (s : str) : cres :=
       | None => COut
       end
   end.
-Definition classify : str -> cres := classify_gen false.
+(* the code as it is (D154 landed in round 7); classify_gen false = the tree before that repair *)
+Definition classify : str -> cres := classify_gen true.
 
 (* check_vname (pyrates/frontend/template/operator.py): names that a variable may not have *)
 Definition reserved_names : list str :=
